@@ -198,7 +198,7 @@ func (vc *VC) Query(o *Obligation, axioms *AxiomSet) string {
 				body = append(body, "(assert "+e.Text+")")
 			}
 		case evObl:
-			if i < o.idx && !e.Obl.Cover && !e.Obl.Canary {
+			if i < o.idx && !e.Obl.Cover && !e.Obl.Canary && !o.Cover {
 				body = append(body, "(assert "+sImp(e.Obl.Guard, e.Obl.Cond)+")")
 			}
 		}
